@@ -157,11 +157,16 @@ def run(facts, res):
                 bad = False
                 for l in dm:
                     s, k, v, tgt = l.edge
+                    # a per-item test inside a loop: going back to the loop header is "skip this item" (the closure form
+                    # `for_each(|item| ..)` simply returns); only a return reached without re-entering the loop counts
+                    headers = {h for h in cfg.loop_headers() if cfg.dominates(h, s) and cfg.reaches(s, h)}
                     for kk in range(len(body.blocks[s].term.switch_edges())):
                         if kk == k:
                             continue
                         e = cfg.edge_nodes[(s, kk)]
-                        reach = cfg.reachable_blocks(e) | ({cfg.edge_info[e][3]})
+                        if cfg.edge_info[e][3] in headers:
+                            continue
+                        reach = cfg.reachable_blocks(e, avoid=headers) | ({cfg.edge_info[e][3]})
                         for ob, _ in assigns_of_return(body, "Ok"):
                             if ob in reach and not cfg.dominates(cfg.edge_nodes[(s, k)], ob):
                                 bad = True
